@@ -63,7 +63,26 @@ func (e *Encoder) processMessage(packet server.LoRaMessage) {
 		packet.FrameContext.GatewayContext.Deadline = 5
 
 	default:
-		packet.Payload.MACPayload.FHDR.FCnt = packet.FrameContext.Device.FCntDn
+		// A frame that cannot be marshalled is not given a frame counter (whether it can
+		// does not depend on the counter or on the encryption).
+		if _, err := packet.Payload.MarshalBinary(); err != nil {
+			lg.Error("Unable to encode message for device with EUI %s: %v. (DevAddr=%s)",
+				packet.FrameContext.Device.DeviceEUI,
+				err,
+				packet.FrameContext.Device.DevAddr)
+			return
+		}
+		// The counter is taken from the store, not from the copy of the device the uplink
+		// handler read: reserving it is one statement, and it is stored before the frame
+		// can leave.
+		fcntDn, err := e.context.Storage.NextFCntDn(packet.FrameContext.Device.DeviceEUI)
+		if err != nil {
+			lg.Error("Unable to update frame counter for downstream message to device with EUI %s: %v. Not sending message.",
+				packet.FrameContext.Device.DeviceEUI,
+				err)
+			return
+		}
+		packet.Payload.MACPayload.FHDR.FCnt = fcntDn
 		buffer, err = packet.Payload.EncodeMessage(packet.FrameContext.Device.NwkSKey, packet.FrameContext.Device.AppSKey)
 		if err != nil {
 			lg.Error("Unable to encode message for device with EUI %s: %v. (DevAddr=%s)",
@@ -74,8 +93,8 @@ func (e *Encoder) processMessage(packet server.LoRaMessage) {
 		}
 
 		// Update the sent state for the device. The message might be confirmed or unconfirmed at this point
-		// but we don't care. We just send it and set the sent time. The downstream frame counter is updated
-		// at this time so it will refer to the current frame counter
+		// but we don't care. We just send it and set the sent time. The downstream frame counter has been
+		// advanced already (New devices will get 0,1,2...)
 		if err := e.context.Storage.SetMessageSentTime(
 			packet.FrameContext.Device.DeviceEUI,
 			packet.FrameContext.PayloadCreate,
@@ -84,14 +103,6 @@ func (e *Encoder) processMessage(packet server.LoRaMessage) {
 			lg.Warning("Unable to update downstream message for device %s: %v", packet.FrameContext.Device.DeviceEUI, err)
 		}
 
-		// Increase the frame counter after the message is sent. New devices will get 0,1,2...
-		packet.FrameContext.Device.FCntDn++
-		if err := e.context.Storage.UpdateDeviceState(packet.FrameContext.Device); err != nil {
-			lg.Error("Unable to update frame counter for downstream message to device with EUI %s: %v. Not sending message.",
-				packet.FrameContext.Device.DeviceEUI,
-				err)
-			return
-		}
 		packet.FrameContext.GatewayContext.Radio.RX1Delay = 1
 		packet.FrameContext.GatewayContext.Deadline = 1
 	}
